@@ -11,7 +11,7 @@ cross-check the composition.
 from symx.spec import obligation, Text, Bytes, Int, OptInt, Bool, SKIP
 from symx.bstr import lit, tracing
 from harness.common import (state_spawn, inv0, pending, AbsSearcher, AbsPat, LitPat, EndPat, Skip,
-                            ScriptedSpawn, frozen_time, empty)
+                            ScriptedSpawn, frozen_time, empty, fake_re as _fake_re)
 from pexpect.expect import Expecter, searcher_string, searcher_re
 from pexpect.exceptions import EOF, TIMEOUT
 import pexpect.spawnbase as SB
@@ -362,36 +362,6 @@ def L7_lines(S, c1, how):
         return 0
     return tag
 
-
-class _FakePattern:
-    pass
-
-
-class _FakeRe:
-    """re stand-in for escape-free literals (what readline/read compile)."""
-    import re as _re
-    DOTALL = _re.DOTALL
-    IGNORECASE = _re.IGNORECASE
-
-    class _P(LitPat, _FakePattern):
-        pass
-
-    def compile(self, p, flags=0):
-        pat = LitPat(p)
-        pat.flags = flags
-        return pat
-
-
-class _fake_re:
-    def __enter__(self):
-        self.old = SB.re
-        if tracing():
-            SB.re = _FakeRe()
-        return self
-
-    def __exit__(self, *a):
-        SB.re = self.old
-        return False
 
 MANIFEST_ENTRY = {
     'level_text': 'Bounded symbolic verification of the real Expecter/searcher/SpawnBase code: every step of an '
